@@ -21,7 +21,7 @@ import renderlib as R
 LEVEL = "proof"
 EXTRA_TARGETS = ["model/TrimTie.vo"]
 HEADER = ("From Coq Require Import List ZArith.\nImport ListNotations.\n"
-          "From TI Require Import lib.Term model.Trim model.TrimSpec model.TrimTie.\nOpen Scope Z_scope.\n")
+          "From TI Require Import lib.Term model.Trim model.TrimSpec model.TrimTie.\nFrom Coq Require Import Uint63.\nOpen Scope Z_scope.\n")
 
 H_CH = ["<", "|", ">"]
 V_CH = ["^", "-", "_"]
@@ -116,6 +116,15 @@ def oz(x):
     return "None" if x is None else f"(Some {core.z(x).replace('%Z', '')})"
 
 
+def pack_obs(o):
+    """One observation as a list of 63-bit words (base-1024 digits, least significant first; TrimTie.dec_obs)."""
+    tl, tt, cols, rows, dis, ix = o
+    ds = [tl, tt, 0 if cols is None else cols + 1, 0 if rows is None else rows + 1, max(dis, 0), len(ix)] + list(ix)
+    assert all(0 <= d < 1024 for d in ds), ds
+    ws = [sum(d << (10 * k) for k, d in enumerate(ds[i:i + 6])) for i in range(0, len(ds), 6)]
+    return "[" + ";".join(map(str, ws)) + "]"
+
+
 def idx_t(ix):
     return "[" + ";".join(map(str, ix)) + "]"
 
@@ -130,17 +139,44 @@ def al(x):
     return 1 if x is None else x
 
 
+def enc_rows(rows, aux):
+    """Token rows as lists of 63-bit words (TrimTie.dec_tok); tokens other than glyphs / NUL / SGR go to `aux`."""
+    out = []
+    for toks in rows:
+        ws = []
+        for t in toks:
+            k = t[0]
+            if k == "char":
+                g = t[1]
+                ws.append({"space": 0, "upper": 1, "lower": 2}[g] if isinstance(g, str) else 3 + (g << 4))
+            elif k == "nul":
+                ws.append(4)
+            elif k == "sgr0":
+                ws.append(5)
+            elif k in ("fg", "bg") and all(0 <= x < 256 for x in t[1:4]):
+                ws.append((6 if k == "fg" else 7) + ((t[1] + (t[2] << 8) + (t[3] << 16)) << 4))
+            else:
+                key = lexer.coq_tok(t)
+                if key not in aux:
+                    aux[key] = len(aux)
+                ws.append(8 + (aux[key] << 4))
+        out.append("[" + ";".join(map(str, ws)) + "]")
+    return "[" + ";\n".join(out) + "]%uint63"
+
+
 def case_term(c, r):
     W, H = r["size"]
     w, h = r["image_size"]
     lines = [R.strip_payload(lexer.lex(s)) for s in r["lines"]]
     tbl = [R.strip_payload(lexer.lex(s)) for s in r["tbl"]]
-    obs = "[" + ";\n".join(f"Ob {o[0]} {o[1]} {oz(o[2])} {oz(o[3])} {core.z(o[4]).replace('%Z', '')} {idx_t(o[5])}"
-                            for o in r["obs"]) + "]"
-    return (f"{{| c_gfx := {R.b(not r['text'])}; c_d := {expected_disguise(c)}%nat; c_W := {W}; c_H := {H}; "
+    aux = {}
+    lines_t, tbl_t = enc_rows(lines, aux), enc_rows(tbl, aux)
+    aux_t = "[" + "; ".join(aux) + "]"
+    obs = "map dec_obs [" + ";\n".join(pack_obs(o) for o in r["obs"]) + "]%uint63"
+    return (f"(let aux := {aux_t} in {{| c_gfx := {R.b(not r['text'])}; c_d := {expected_disguise(c)}%nat; c_W := {W}; c_H := {H}; "
             f"c_w := {w}; c_h := {h}; c_ha := {al(c['ha'])}%nat; c_va := {al(c['va'])}%nat; "
-            f"c_lines := {core.coq_list(lines, lexer.coq_toks)}; c_tbl := {core.coq_list(tbl, lexer.coq_toks)}; "
-            f"c_fd := {core.z(r['fd']).replace('%Z', '')}; c_full := {idx_t(r['full'])}; c_obs := {obs} |}}")
+            f"c_lines := dec_rows aux {lines_t}; c_tbl := dec_rows aux {tbl_t}; "
+            f"c_fd := {max(r['fd'], 0)}; c_full := {idx_t(r['full'])}; c_obs := {obs} |}})")
 
 
 def describe(c, r=None):
@@ -166,6 +202,8 @@ def python_oracle(c, r):
             why.append(f"flow widget: canvas is {W} columns wide for maxcol={c['size'][0]}")
     elif [W, H] != list(c["size"]):
         why.append(f"box widget: canvas size {(W, H)} != requested {tuple(c['size'])}")
+    if r["fd"] < 0 or any(o[4] < 0 for o in r["obs"]):
+        why.append("rows of one content() call carry different numbers of disguise pairs")
     if not r["text"]:
         # byte-exact selection of lines (payloads included) on vertical trims
         for tl, tt, cols, rows, dis, ix in r["obs"]:
